@@ -40,7 +40,7 @@ FILL = -77.0
 
 def bounds(tier, seed):
     return dict(shapes=LABEL_SHAPES_QUICK if tier == "quick" else LABEL_SHAPES_THOROUGH, max_full=4 if tier == "quick" else 6,
-                stratum=(9, seed % 9) if tier == "quick" else None)
+                stratum=(9, seed % 9))
 
 
 def shards(tier, seed):
